@@ -168,9 +168,11 @@ def call(ex, st, fn, args, kw, node):
             try: yield st, chr(v)
             except (ValueError, OverflowError) as e: yield st, Raise(ex.new_builtin_exc(st, type(e).__name__, [str(e)]))
             return
-        z = lift(v).z; ok = z3.And(z >= 0, z <= 0x10FFFF)
-        if feasible(st.pc, z3.Not(ok)):
-            sb = st.copy(); sb.pc.append(z3.Not(ok)); yield sb, Raise(ex.new_builtin_exc(sb, "ValueError", ["chr() arg not in range(0x110000)"]))
+        z = lift(v).z; ok = z3.And(z >= 0, z <= 0x10FFFF); cint = z3.And(z >= -2**31, z < 2**31)
+        if feasible(st.pc, z3.Not(cint)):        # CPython: an argument that does not fit a C int raises OverflowError, not ValueError
+            so = st.copy(); so.pc.append(z3.Not(cint)); yield so, Raise(ex.new_builtin_exc(so, "OverflowError", ["Python int too large to convert to C int"]))
+        if feasible(st.pc, z3.And(cint, z3.Not(ok))):
+            sb = st.copy(); sb.pc.append(z3.And(cint, z3.Not(ok))); yield sb, Raise(ex.new_builtin_exc(sb, "ValueError", ["chr() arg not in range(0x110000)"]))
         st.pc.append(ok); yield st, Sym(STR, z3.StrFromCode(z)); return
     if name == "ord":
         v = args[0]
